@@ -28,6 +28,7 @@ import (
 	"github.com/samber/lo"
 	corev1 "k8s.io/api/core/v1"
 	metav1 "k8s.io/apimachinery/pkg/apis/meta/v1"
+	"k8s.io/client-go/util/retry"
 
 	v1 "sigs.k8s.io/karpenter/pkg/apis/v1"
 	kdisruption "sigs.k8s.io/karpenter/pkg/controllers/disruption"
@@ -198,6 +199,15 @@ func (o *osim) gate(call world.Call) {
 // withPlan runs f under the step's fault plan / cut / at hooks.
 func (o *osim) withPlan(st OStep, f func()) {
 	w := o.w
+	o.gmu.Lock()
+	nested := o.gBusy
+	o.gmu.Unlock()
+	if nested {
+		// a controller step run from an `at` hook of another step (two invocations overlapping): it runs plainly, the
+		// outer step keeps its plan
+		f()
+		return
+	}
 	if len(st.Faults) > 0 {
 		w.ClearFaults()
 		for _, ft := range st.Faults {
@@ -833,6 +843,10 @@ func RunOrchOne(sc *OScenario, tw *trace.Writer) (err error) {
 }
 
 func RunOrch(args []string) error {
+	// Karpenter retries failing calls with client-go's retry.DefaultBackoff (4 attempts, 10 ms x5 = 310 ms of real sleep):
+	// same number of attempts, shorter real-time sleeps (the virtual clock is not involved) - behaviours with persistently
+	// failing calls and crash points replay ten times faster.
+	retry.DefaultBackoff.Duration = time.Millisecond
 	fs := flag.NewFlagSet("orch", flag.ContinueOnError)
 	in := fs.String("in", "", "scenarios JSON (array)")
 	out := fs.String("out", "traces", "output directory")
